@@ -15,12 +15,16 @@ package udp
 
 import (
 	"context"
+	"errors"
 	"net"
 	"reflect"
 
 	"github.com/hprose/hprose-golang/v3/internal/convert"
 	"github.com/hprose/hprose-golang/v3/rpc/core"
 )
+
+// ErrResponseTooLarge is sent instead of a response that does not fit in a datagram.
+var ErrResponseTooLarge = errors.New("hprose/rpc/udp: response too large")
 
 type Handler struct {
 	Service *core.Service
@@ -146,6 +150,9 @@ func (h *Handler) send(ctx context.Context, conn *net.UDPConn, queue chan data, 
 			return
 		case response := <-queue:
 			index, body, e, addr := response.Index, response.Body, response.Error, response.Addr
+			if e == nil && len(body) > len(buffer)-8 {
+				e = ErrResponseTooLarge
+			}
 			if e != nil {
 				index |= 0x8000
 				if e == core.ErrRequestEntityTooLarge {
